@@ -29,6 +29,7 @@ use vcore::util::{catch, fnv_str, mix};
 use vcore::{Cfg, Check, Cx, Finding, Meta, SUB_SETUP, Tier, Value, Violation, json};
 
 mod genr;
+mod hist;
 
 use c04p::{probe, ty};
 use c04t1 as tab1;
@@ -199,6 +200,8 @@ fn table_inferred() -> Table {
 enum Fam {
     Main,
     Inferred,
+    /// sequences of packages inside one process (`hist.rs`)
+    History,
 }
 
 impl Fam {
@@ -206,27 +209,34 @@ impl Fam {
         match self {
             Fam::Main => PROBES_PER_UNIT,
             Fam::Inferred => 24,
+            Fam::History => 1,
         }
     }
     fn tag(self) -> &'static str {
         match self {
             Fam::Main => "main",
             Fam::Inferred => "inferred",
+            Fam::History => "history",
         }
     }
     fn table(self, tier: Tier) -> Table {
         match self {
             Fam::Main => table(tier),
             Fam::Inferred => table_inferred(),
+            Fam::History => hist::table(),
         }
     }
     fn package(self, tier: Tier) -> Pkg {
         match self {
             Fam::Main => genr::package(tier),
             Fam::Inferred => genr::inferred_package(),
+            Fam::History => Pkg { root: String::new(), sub: String::new(), targets: vec![] },
         }
     }
     fn units(self, tier: Tier) -> usize {
+        if self == Fam::History {
+            return hist::units(tier);
+        }
         self.table(tier).len().div_ceil(self.ppu())
     }
 }
@@ -234,7 +244,14 @@ impl Fam {
 /// global unit number -> (family, unit within the family)
 fn locate(tier: Tier, unit: usize) -> (Fam, usize) {
     let n = Fam::Main.units(tier);
-    if unit < n { (Fam::Main, unit) } else { (Fam::Inferred, unit - n) }
+    let m = Fam::Inferred.units(tier);
+    if unit < n {
+        (Fam::Main, unit)
+    } else if unit < n + m {
+        (Fam::Inferred, unit - n)
+    } else {
+        (Fam::History, unit - n - m)
+    }
 }
 
 struct C04;
@@ -244,13 +261,16 @@ impl Check for C04 {
         "C04"
     }
     fn units(&self, cfg: &Cfg) -> usize {
-        Fam::Main.units(cfg.tier) + Fam::Inferred.units(cfg.tier)
+        Fam::Main.units(cfg.tier) + Fam::Inferred.units(cfg.tier) + Fam::History.units(cfg.tier)
     }
 
     fn run_unit(&self, unit: usize, cx: &mut Cx) {
         let tier = cx.cfg.tier;
         let global_unit = unit;
         let (fam, unit) = locate(tier, global_unit);
+        if fam == Fam::History {
+            return hist::run_unit(unit, cx);
+        }
         let ppu = fam.ppu();
         let probes = fam.table(tier);
         let p = fam.package(tier);
@@ -416,8 +436,11 @@ impl Check for C04 {
         if sub == SUB_SETUP {
             return json!({"kind": "setup", "note": "compiling the generated package"});
         }
-        let (pi, ti, action) = dec(sub);
         let (fam, unit) = locate(cfg.tier, unit);
+        if fam == Fam::History {
+            return hist::case_json(cfg.tier, sub as usize, None, &[]);
+        }
+        let (pi, ti, action) = dec(sub);
         let probes = fam.table(cfg.tier);
         let p = fam.package(cfg.tier);
         let Some(probe) = probes.get(unit * fam.ppu() + pi) else {
@@ -480,7 +503,7 @@ impl Check for C04 {
         let pg = ty::probe_grammar(cfg.tier);
         let p = genr::package(cfg.tier);
         Meta {
-            rule: "every target (a name + the signature the generator knows it has, or 'nothing') x every Rust function type of the probe table, requested through Package::get_function; Ok iff parameter lists and return types are structurally equal descriptors; never a panic; handles obtained on the depth<=1 diagonal are called once. Script side: p_S/r_S for every S of the script grammar (quick: 132 G1 types + all 456 depth-2 nestings over the 6-leaf set; thorough: G1 + every type of depth <= 2 over the 6-leaf set with at most one non-leaf argument per binary constructor), 57 filtermaps with pinned payloads + 40 with payloads inferred from unannotated literals, 38 arity functions, tests, script-declared and shadowing types, a submodule. Rust side: fn(R) and fn() -> R for every R of the probe grammar (quick: G1 + the 24 types U<W<L>>, U, W in {Option, List}; thorough: G1 + 96 depth-2 types), 36 arity signatures, types unknown to the runtime. Second family of units (inferred payloads): a package of filtermaps for every (accept kind, reject kind, sides used) combination over 20 payload kinds built only from unannotated literals (5, -5, 5 + 1, 2 * 3, if, let-bound, 1.5, -1.5, Option.Some(..), [..], { a: 5 }, plus true and ()), with pinned controls (suffix, annotated let, declared return type, parameter), requested as fn() -> Verdict<A, R> for (A, R) in ALL36 x TRUE7, TRUE7 x ALL36 and NUM10 x NUM10 (ALL36 = 8 integer types, f32, f64, bool, (), Option of each, List of each; TRUE7 = i32, f64, Option/List of these, ()), and fn(u8) -> Verdict<u8, X>; exactly the signature with {integer} = i32 and {float} = f64 is handed out. Names derived from module keys that are not script functions (generated helpers) are requested under the flat signatures only. A pair is non-trivial when the name designates a script function and the requested type has the same number of parameters (at least one type comparison decides the outcome)".into(),
+            rule: "every target (a name + the signature the generator knows it has, or 'nothing') x every Rust function type of the probe table, requested through Package::get_function; Ok iff parameter lists and return types are structurally equal descriptors; never a panic; handles obtained on the depth<=1 diagonal are called once. Script side: p_S/r_S for every S of the script grammar (quick: 132 G1 types + all 456 depth-2 nestings over the 6-leaf set; thorough: G1 + every type of depth <= 2 over the 6-leaf set with at most one non-leaf argument per binary constructor), 57 filtermaps with pinned payloads + 40 with payloads inferred from unannotated literals, 38 arity functions, tests, script-declared and shadowing types, a submodule. Rust side: fn(R) and fn() -> R for every R of the probe grammar (quick: G1 + the 24 types U<W<L>>, U, W in {Option, List}; thorough: G1 + 96 depth-2 types), 36 arity signatures, types unknown to the runtime. Second family of units (inferred payloads): a package of filtermaps for every (accept kind, reject kind, sides used) combination over 20 payload kinds built only from unannotated literals (5, -5, 5 + 1, 2 * 3, if, let-bound, 1.5, -1.5, Option.Some(..), [..], { a: 5 }, plus true and ()), with pinned controls (suffix, annotated let, declared return type, parameter), requested as fn() -> Verdict<A, R> for (A, R) in ALL36 x TRUE7, TRUE7 x ALL36 and NUM10 x NUM10 (ALL36 = 8 integer types, f32, f64, bool, (), Option of each, List of each; TRUE7 = i32, f64, Option/List of these, ()), and fn(u8) -> Verdict<u8, X>; exactly the signature with {integer} = i32 and {float} = f64 is handed out. Third family (histories): 95 one-function package variants that differ in one type only (filtermap accept / reject payload, parameter, return value, both; 16 built-in types and the registered type Thing that three runtimes bind to three Rust types); every ordered pair within a group and triples with a third package in between are compiled one after another in one fresh process, and after each compilation the true signatures of all variants seen so far are requested (foreign ones first), then the older packages are asked again; Ok iff the requested signature is the true signature of the package asked, whatever happened before. Names derived from module keys that are not script functions (generated helpers) are requested under the flat signatures only. A pair is non-trivial when the name designates a script function and the requested type has the same number of parameters (at least one type comparison decides the outcome)".into(),
             assumptions: vec![
                 "the Rust-side descriptor of a type is derived by the harness's own Desc trait, the script-side descriptor by the generator; neither reads roto's TypeRegistry".into(),
                 "Rust types that implement roto::Value but are not nameable outside the crate (StringBytes, StringChars, StringLines, DynVal, VTable, ErasedList) cannot be requested through the public API and are not enumerated".into(),
@@ -498,6 +521,14 @@ impl Check for C04 {
                 "max_depth": g.iter().map(|t| t.depth()).max(),
                 "probes": table(cfg.tier).len(),
                 "inferred_family": inferred_bounds(),
+                "history_family": {
+                    "variants": hist::variants().len(),
+                    "histories": hist::histories(cfg.tier).len(),
+                    "histories_of_2_packages": hist::histories(cfg.tier).iter().filter(|h| h.len() == 2).count(),
+                    "histories_of_3_packages": hist::histories(cfg.tier).iter().filter(|h| h.len() == 3).count(),
+                    "histories_per_unit": hist::HIST_PER_UNIT,
+                    "process_per_history": true,
+                },
                 "static_targets": p.targets.len(),
                 "script_functions": p.targets.iter().filter(|t| t.expect != Expect::Nothing).count(),
                 "arity_signatures": genr::arity_sigs().len(),
@@ -550,6 +581,7 @@ impl Check for C04 {
                 }
             }
         }
+        hist::preflight()?;
         // inferred-payload family: unique names, unique probes, and every
         // payload kind has its true signature in the probe table
         let probes = table_inferred();
@@ -617,6 +649,10 @@ fn run_call(cx: &mut Cx, probe: &dyn Probe, t: &Target, sub_call: u64, call: Box
 }
 
 fn main() {
+    if let Ok(spec) = std::env::var("C04_HISTORY") {
+        // one history of the history family, in this fresh process
+        hist::child_main(&spec);
+    }
     if let Ok(what) = std::env::var("C04_DUMP") {
         let tier = if what == "thorough" { Tier::Thorough } else { Tier::Quick };
         let p = genr::package(tier);
